@@ -168,9 +168,9 @@ Proof.
 Qed.
 
 (* ... and the restriction is needed: with two candidates of one version the listing order decides *)
-Definition tie_a : ucand := mkCand "p"%string (mkDist "p"%string (Some (mkV 0 [1%N] None None None [])) "1"%string [] false) true false.
+Definition tie_a : ucand := mkCand "p"%string (mkDist "p"%string (Some (mkV 0 [1%N] None None None [])) "1"%string [] false false) true false.
 Definition tie_b : ucand :=
-  mkCand "p"%string (mkDist "p"%string (Some (mkV 0 [1%N; 0%N] None None None [])) "1.0"%string [mkReq "q"%string [] [] None] false) true false.
+  mkCand "p"%string (mkDist "p"%string (Some (mkV 0 [1%N; 0%N] None None None [])) "1.0"%string [mkReq "q"%string [] [] None] false false) true false.
 Lemma listing_order_tie_refuted :
   and (Permutation [tie_a; tie_b] [tie_b; tie_a])
       (get_dist [("p"%string, [tie_a; tie_b])] false (mkReq "p"%string [] [] None) None
